@@ -346,6 +346,10 @@ def judge(plan, outcome):
                             # companions (want = all candidates) the candidate's objective cannot get smaller
                             extra = dict(extra, more_companions="cost-more" if sum(sb) >= sum(sa) - 1e-6
                                          else "cost-less")
+                            if bool(sa) != bool(sb):
+                                # (a candidate that has a refinement in one call and none at all in the other is
+                                # not what pooling does to the objective)
+                                extra["more_companions"] = "refinement-lost"
                         vs.append(_v(c, candidate=key, got=a, want=b, scores=[sa, sb], **extra, **where))
 
                 # same process, same hash seed: only the candidate list differs
@@ -857,6 +861,8 @@ def _op(ctx, op):
             sel = [cands[j] for j in idxs]
             res = aldy.minor.estimate_minor(g, s.coverage, sel, "cbc", max_solutions=1)
             min_score = min(m.score for m in sel)
+            for m_ in sel:
+                out.setdefault(_cand_key(m_), [])  # (a candidate without any refinement is a result too)
             for ms in res:
                 key = _cand_key(ms.major_solution)
                 c = canon.minor_solution(ms)
